@@ -98,6 +98,13 @@ CLAIMED["C16"] = dict(
            "integral divisions by a parameter are guarded; only library exceptions are thrown explicitly. Passing these rules does NOT prove absence of crashes (that remains the fuzzers' job)."),
     note=TB + "Not decided: invalid iterators inside std algorithms, signed overflow, allocation size, index ranges that need value reasoning (e.g. continuation lines in getAttributesMap), exceptions escaping from std members.")
 
+CLAIMED["C14"] = dict(
+    engine="E1+E5+E4",
+    technique="static analysis: guard dominance for inserting reads of the node/edge tables, mirrored-call sibling rule (link vs unlink under '!directed_'), must-pass notification after erase (through private helpers), co-update of map groups, assign-reset and re-subscription order, inverse-map write agreement",
+    level=("Static rules decide for every history: the node/edge tables never gain phantom entries through an unguarded operator[] read; unlink mirrors link for undirected graphs; every deletion reaches the observer "
+           "notification; an object forgotten by an observer is forgotten in every map; observer assignment clears, unsubscribes and re-subscribes; paired inverse maps are written consistently (copy constructors included)."),
+    note=TB + "Not decided: agreement with a reference multigraph over histories, iterator contents vs list queries, unchecked find() results on absent ids in protected members (undefined behaviour tolerated by libstdc++).")
+
 NOT_APPLICABLE = {
     "C06": ("every clause is a floating-point identity of the JAMA QL/QR iterations (A.V = V.D within k.eps, ordering, trace/determinant); correctness lies in rotation coefficients and "
             "deflation tests that no sound static argument in reach bounds, and no structural necessary condition separable from run-time invariants exists (DESIGN.md section 6)"),
